@@ -17,6 +17,8 @@ Only the statements that *are* the property live here (helper lemmas: `Lemmas/C0
 * `compiled_eq_interp`  every non-empty word, with and without both boundaries: the glyph/kern
                         sequence of the compiled run is the result of the cursor machine
 * `spell_noLB`, `compiled_eq_interp_noLB`  the same for `RunOptions::disable_left_boundary`
+* `spell_override`, `compiled_eq_interp_override`  the same for any `RunOptions`: the override
+                        replaces the right boundary character of the run
 -/
 namespace C05
 
@@ -188,6 +190,55 @@ theorem compiled_eq_interp_noLB (p : Program) (w : List Nat) (hac : acyclicB p =
     exact ⟨⟨f, hf⟩, fun fuel out h => interp_det p h hf⟩
 
 example : glyphs (runNoLB exBoth [97, 102, 102, 105]) = [.glyph 97, .glyph 14, .glyph 33] := by decide
+
+/-! ### Caller-supplied right boundary (`RunOptions::right_boundary_override`) -/
+
+/-- Running with override `ov` (with or without the left boundary) is the cursor machine on
+`[LB?] w [RB?]` where the right boundary character is the override if there is one and the
+font's own boundary character otherwise. -/
+theorem compiled_eq_interp_override (p : Program) (noLB : Bool) (ov : Option Nat) (w : List Nat)
+    (hac : acyclicB p = true) (hw : w ≠ []) :
+    let p' := withRb p (effRb p ov)
+    let s := if noLB then seqNoLB p' w else seqOf p' w
+    (∃ fuel, interp p' fuel s = some (glyphs (runOpt p noLB ov w))) ∧
+    (∀ fuel out, interp p' fuel s = some out → out = glyphs (runOpt p noLB ov w)) := by
+  intro p' s
+  have hac' : acyclicB p' = true := by rw [acyclicB_withRb]; exact hac
+  cases noLB with
+  | false =>
+    have e : runOpt p false ov w = runM p' w := by
+      simp only [runOpt, runM, p', table_withRb]
+      rfl
+    simp only [s, e]
+    exact compiled_eq_interp p' w hac' hw
+  | true =>
+    have e : runOpt p true ov w = runNoLB p' w := by
+      cases w with
+      | nil => rfl
+      | cons c rest =>
+        simp only [runOpt, runNoLB, p', table_withRb]
+        rfl
+    simp only [s, e]
+    exact compiled_eq_interp_noLB p' w hac' hw
+
+theorem spell_override (p : Program) (noLB : Bool) (ov : Option Nat) (w : List Nat) :
+    originals (runOpt p noLB ov w) = w := by
+  cases noLB with
+  | false =>
+    have := (goL_spell (table p) (effRb p ov) (table_good p) w).1 none
+    simpa [runOpt, runCompiled] using this
+  | true =>
+    cases w with
+    | nil => rfl
+    | cons c rest =>
+      have := (goL_spell (table p) (effRb p ov) (table_good p) rest).1 (some c)
+      simpa [runOpt] using this
+
+-- the override wins over the font's own boundary character: `exBoth` has boundary `|` (124)
+-- with a rule `ffi |`; under override `z` (122, no rules) that rule does not fire
+example : glyphs (runOpt exBoth false none [102, 102, 105]) = [.glyph 14, .glyph 33] := by decide
+example : glyphs (runOpt exBoth false (some 122) [102, 102, 105]) = [.glyph 14] := by decide
+example : glyphs (runOpt exBoth false (some 124) [102, 102, 105]) = [.glyph 14, .glyph 33] := by decide
 
 /-- The hypothesis of `compiled_eq_interp` cannot be dropped: on a program with a looping
 pair the machine does not terminate on a word that reaches it, while the compiled run does
